@@ -48,7 +48,7 @@ def points(rng, n, impl_rings):
 def run(run):
     rng = run.rng
     run.do_ties()
-    quick = run.tier == "quick"
+    quick = run.quick
     ref_tables = tables_are_reference()
     # rings of the coarse cells (for the seam generator)
     coarse = [spec.encode(0, f, ()) for f in range(12)] + [spec.encode(1, T, ()) for T in range(60)]
